@@ -115,6 +115,111 @@ def model_solve_copies(lk):
     return r.shape == want.shape and np.allclose(r, want) and not np.shares_memory(r, m.S)
 
 
+def stack_kinds(lk):
+    """(enterKind, exitKind): what `Solver.__enter__` / `__exit__` do to `sol_list`, observed on a re-entrant stack
+    `[d, s, t]` + enter `s` (must become `[d, s, t, s]`), and exit of the inner `s` from `[d, s, t, s]` with and without an
+    exception in flight (must become `[d, s, t]`)"""
+    saved = list(lk.sol_list)
+    try:
+        d, s, t = lk.Solver(), lk.Solver(name="verif_s"), lk.Solver(name="verif_t")
+
+        def same(a, b):
+            return len(a) == len(b) and all(x is y for x, y in zip(a, b))
+        lk.sol_list[:] = [d, s, t]
+        try:
+            s.__enter__()
+            after = list(lk.sol_list)
+            enter = "push" if same(after, [d, s, t, s]) else ("nop" if same(after, [d, s, t]) else "other")
+        except Exception:
+            enter = "other"
+        res = []
+        for exc in (None, ValueError("verif")):
+            lk.sol_list[:] = [d, s, t, s]
+            try:
+                r = s.__exit__(None, None, None) if exc is None else s.__exit__(type(exc), exc, None)
+                after = list(lk.sol_list)
+                if r:
+                    res.append("other")            # the exception would be swallowed
+                else:
+                    res.append("pop" if same(after, [d, s, t]) else ("keep" if same(after, [d, s, t, s]) else "other"))
+            except Exception:
+                res.append("other")
+        exit_ = {("pop", "pop"): "popAlways", ("pop", "keep"): "popOnNormal", ("keep", "pop"): "popOnRaise",
+                 ("keep", "keep"): "nop"}.get(tuple(res), "other")
+        return enter, exit_
+    finally:
+        lk.sol_list[:] = saved
+
+
+def helper_targets(lk):
+    """for every helper kind: which solver of the stack `[s0, s1, s3, s2]` it acts on, observed through the state it changes
+    (the harness' own `World`): "top" (only the innermost active solver), "none" (no observable effect) or "other" """
+    from props import c17
+    out = []
+    for h, name in enumerate(c17.HELPERS):
+        w = c17.World()
+        try:
+            lk.sol_list[:] = [w.solvers[0], w.solvers[1], w.solvers[3], w.solvers[2]]
+            try:
+                obs = w.call(h)
+            except Exception as e:  # noqa
+                out.append((name, "other"))
+                continue
+            out.append((name, "top" if obs == 2 else ("none" if obs is None else "other")))
+        finally:
+            lk.sol_list[:] = w.orig
+    return out
+
+
+def block_interface(lk):
+    """{documented block class: (name table built at construction, str() works for int / float / numpy-typed arguments)}, observed on
+    one instance per argument typing (arguments in the middle of their documented range, integer-valued where the typing needs it)"""
+    import numpy as np
+    from props import c09
+    B = c09.blocks()
+    out = {}
+    for name, spec in B.items():
+        if ":" in name:
+            continue
+        table_ok, str_ok = True, True
+        for typ in (float, int, np.float64, np.int64):
+            a = {}
+            for k, (lo, hi) in spec["args"].items():
+                if k == "fixed":
+                    a[k] = True
+                elif k in c09.INT_ONLY:
+                    a[k] = int(round((lo + hi) / 2))
+                else:
+                    v = lo + 0.37 * (hi - lo)
+                    if typ in (int, np.int64):
+                        v = float(min(max(round(v), np.ceil(lo)), np.floor(hi)))
+                    a[k] = typ(v) if k in c09.INT_OK else float(v)
+            try:
+                m = spec["make"](a)
+            except Exception:
+                table_ok = str_ok = False
+                break
+            try:
+                table_ok = table_ok and set(m.pin.keys()) == {p.name for p in m.pin_dic}
+            except Exception:
+                table_ok = False
+            try:
+                str(m)
+            except Exception:
+                str_ok = False
+        out[name] = (bool(table_ok), bool(str_ok))
+    return out
+
+
+def run_stack(repo):
+    lk = _lk(repo)
+    lg, lvl = _quiet()
+    try:
+        return stack_kinds(lk), helper_targets(lk), block_interface(lk)
+    finally:
+        lg.setLevel(lvl)
+
+
 PROBES = {
     "solveResetsParams": solve_resets_params,
     "solveResetsStructures": solve_resets_structures,
